@@ -29,14 +29,22 @@ pub struct SigEntry {
     /// key whose id labels the entry (None: the signer's own id)
     pub label: Option<KeySpec>,
     pub corrupt: Option<Corrupt>,
+    /// the labelling key id is written in upper-case hexadecimal (another string: it names no key)
+    #[serde(default)]
+    pub label_upper: bool,
 }
 
 impl SigEntry {
     pub fn good(k: &KeySpec) -> SigEntry {
-        SigEntry { signer: k.clone(), label: None, corrupt: None }
+        SigEntry { signer: k.clone(), label: None, corrupt: None, label_upper: false }
     }
     pub fn label_id(&self) -> String {
-        key_id_str(self.label.as_ref().unwrap_or(&self.signer))
+        let id = key_id_str(self.label.as_ref().unwrap_or(&self.signer));
+        if self.label_upper {
+            id.to_uppercase()
+        } else {
+            id
+        }
     }
 }
 
@@ -260,7 +268,7 @@ pub fn write_world_after(prev: &World, prev_keys: &[KeySpec], w: &World, dir: &P
 pub fn good_signers(w: &World) -> Vec<KeySpec> {
     let mut signers: Vec<KeySpec> = vec![];
     for e in &w.sigs {
-        if e.corrupt.is_none() && e.label.is_none() && !signers.contains(&e.signer) {
+        if e.corrupt.is_none() && e.label.is_none() && !e.label_upper && !signers.contains(&e.signer) {
             signers.push(e.signer.clone());
         }
     }
